@@ -1991,8 +1991,10 @@ vbi_unham8			(unsigned int		c)
 _vbi_inline int
 vbi_unham16p			(const uint8_t *	p)
 {
+	/* Multiplication because a left shift of the
+	   negative error value is undefined. */
 	return ((int) _vbi_hamm8_inv[p[0]])
-	  | (((int) _vbi_hamm8_inv[p[1]]) << 4);
+	  | (((int) _vbi_hamm8_inv[p[1]]) * 16);
 }
 
 extern void
